@@ -78,7 +78,9 @@ def apply(t, b, keep):
     time.sleep(0.03)
 
 
-def run_history(ctx, hist, listen=None):
+def run_history(ctx, hist, listen=None, hold=0):
+    """`hold`: seconds the kept-open (silent) connections are left stalled before the final handshake: a *slow* peer, long enough for
+    any per-connection timeout the server may have to expire while the connection is still open."""
     t = bb.Tacd(DOMAIN, bb.ext_for(DIGEST), listen=listen)
     keep = []
     out = []
@@ -86,6 +88,8 @@ def run_history(ctx, hist, listen=None):
         try:
             for b in hist:
                 apply(t, b, keep)
+            if hold and keep:
+                time.sleep(hold)
             sock = t.connect_raw()
         except (ConnectionError, OSError) as e:
             rc = t.p.poll()
@@ -130,7 +134,7 @@ def run(ctx):
     depth = 2 if ctx.quick else 4
     res.rule = ("E5: every ordered selection (with repetition) of 0..%d behaviours from the catalogue {connect+close, garbage bytes, plain HTTP, TLS without ALPN, TLS with foreign "
                 "ALPN, ClientHello then silence (kept open, closed at the end), ClientHello then FIN, 50 concurrent stalled connections (kept open)} against a fresh release tacd (panic=abort), followed by a valid "
-                "acme-tls/1 handshake checked as in C16. A state is the behaviour history; a transition is one connection behaviour.") % depth
+                "acme-tls/1 handshake checked as in C16; plus slow peers: silent connections held open for 7 s (thorough: 7, 35, 65 s) before the final handshake. A state is the behaviour history; a transition is one connection behaviour.") % depth
     hists = []
     for n in range(depth + 1):
         hists += [list(h) for h in itertools.product(BEHAVIOURS, repeat=n)]
@@ -142,6 +146,20 @@ def run(ctx):
         uh += [list(h) for h in itertools.product(BEHAVIOURS, repeat=2)]
     with ThreadPoolExecutor(max_workers=8) as ex:
         uresults = list(ex.map(lambda h: run_history(ctx, h, "unix"), uh))
+    # slow peers: silent connections held for `hold` seconds (longer than a plausible per-connection timeout) before the final handshake
+    holds = [7] if ctx.quick else [7, 35, 65]
+    slow = [(h, l, hold) for hold in holds for l in (None, "unix") for h in (["clienthello-then-silence"], ["50-stalled"], ["clienthello-then-silence", "50-stalled", "garbage"])]
+    with ThreadPoolExecutor(max_workers=len(slow)) as ex:
+        sresults = list(ex.map(lambda a: run_history(ctx, a[0], a[1], a[2]), slow))
+    for (h, l, hold), viols in zip(slow, sresults):
+        res.evaluations += 1
+        res.transitions += len(h) + 1
+        res.state_keys.add((l or "tcp", tuple(h), "held-%ds" % hold))
+        res.outcomes["%s|slow=%ds|%s" % (l or "tcp", hold, "ok" if not viols else viols[0][0])] += 1
+        for (oracle, ex_, ob) in viols:
+            res.violation(oracle, "C17|%s|%s|stalled-connections-held=%ds" % (oracle, l or "tcp", hold), ex_, "%s after history %s with the silent connections held open for %d s" % (ob, h, hold),
+                          replay={"history": h, "listen": l or "tcp", "hold": hold})
+    res.extra["slow_histories"] = {"holds_s": holds, "histories": len(slow)}
     for listen, hs, rs in (("tcp", hists, results), ("unix", uh, uresults)):
         for h, viols in zip(hs, rs):
             res.evaluations += 1
@@ -163,10 +181,13 @@ def run(ctx):
 
 def replay(ctx, rp):
     r = rp["request"]
-    viols = run_history(ctx, r["history"], None if r.get("listen") in (None, "tcp") else "unix")
+    viols = run_history(ctx, r["history"], None if r.get("listen") in (None, "tcp") else "unix", r.get("hold", 0))
     out = []
     for (o, e, b) in viols:
         h = r["history"]
+        if r.get("hold"):
+            out.append({"oracle": o, "signature": "C17|%s|%s|stalled-connections-held=%ds" % (o, r.get("listen") or "tcp", r["hold"]), "expected": e, "observed": b})
+            continue
         killer = next((x for x in h if x in ("garbage", "plain-http", "tls-no-alpn", "tls-foreign-alpn", "connect-close", "clienthello-then-close")), h[0] if h else "none")
         out.append({"oracle": o, "signature": "C17|%s|%s|first-failed-connection=%s" % (o, r.get("listen") or "tcp", killer), "expected": e, "observed": b})
     return out
